@@ -336,8 +336,14 @@ def scryptParamsSpec : Handler := h3 fun ln rs ps =>
     some (if withinUsize logN r p && Spec.Kdf.scryptValid (2 ^ logN) r p 1 then "ok" else "PANIC")
   | _, _, _ => none
 
+/-! ### dig.str — `Digest::input_str` then `Digest::result_str`: the lowercase hex of the digest of the string's bytes
+     (the history `i<bytes>;R` of the object model; the answer of `R` is already printed as lowercase hex) -/
+def digStrImpl : Handler := h2 fun dn m => digObjImpl [dn, (if m == "-" then "i-" else "i" ++ m) ++ ";R"]
+def digStrSpec : Handler := h2 fun dn m => digObjSpec [dn, (if m == "-" then "i-" else "i" ++ m) ++ ";R"]
+
 def ops : List OpEntry := [
   ⟨"dig.obj", digObjImpl, digObjSpec⟩,
+  ⟨"dig.str", digStrImpl, digStrSpec⟩,
   ⟨"dig.blake2b", digBlakeImpl true, digBlakeSpec true⟩,
   ⟨"dig.blake2s", digBlakeImpl false, digBlakeSpec false⟩,
   ⟨"mac.hmac", macHmacImpl, macHmacSpec⟩,
